@@ -185,7 +185,7 @@ pub fn jobs(tier: Tier, seed: u64) -> Vec<Job> {
     must.sort_by_key(|s| (s.x, s.s + s.t, s.w));
     let n_must = must.len();
     must.extend(rest);
-    let mut out = vec![];
+    let mut out = super::c07::conformance_jobs(tier, &[0, 1, 2, 4]);
     // three operations with fixed arities and free wiring (operations whose producers sit in different layers)
     let base = vec![(0usize, 2usize), (1, 1), (2, 0)];
     for perm in crate::plain::perms(3) {
